@@ -33,34 +33,19 @@ theorem idle_handleMessage (g : Cfg) (p : P) (hq : Quiet p) (hx : p.headerExists
   obtain ⟨a, b, c, d, e⟩ := hq
   constructor <;> (try constructor) <;> simp [handleMessage, startSt, *]
 
-/-- index of the next response header section (the server never counts) -/
-def nextNo (g : Cfg) (p : P) : Nat := if g.isClient then p.respNo + 1 else p.respNo
-
-/-- "no outstanding HEAD request answers this response" (vacuous on a server) -/
-def NoHead (g : Cfg) (p : P) : Prop := g.isClient = true → g.head p.respNo = false
-
-/-- the CR of the blank line: validate the framing fields, apply the client-side override, record the trailer names -/
-theorem blank_cr (g : Cfg) (p p0 p2 : P) (tok : Bytes) (hp : p.st = .headerKeyBefore)
-    (hE : endOfHeaders p = .ok p0) (hT : addTrailerKeys (framingOverride g p0) = .ok p2) :
-    byteStep g p tok CR =
-      .ok { p2 with st := .headerOverLF } .next [.contentLength (framingOverride g p0).contentLength] := by
-  simp [byteStep, hp, hE, hT, ok, CR, SP]
-
 /-- blank line of a message without framing fields: no body -/
 theorem end_none (g : Cfg) (p : P) (tok rest : Bytes) (acc : List Ev)
     (hp : p.st = .headerKeyBefore) (hq : Quiet p) (hte : p.te = []) (hcl : p.cl = []) (hch : p.chunked = false)
-    (hnb : p.noBody = false) (hh : NoHead g p) :
+    (hnb : p.noBody = false) :
     ∃ p', Idle g p' ∧ specFeed (M g) p tok ([CR, LF] ++ rest) acc =
       specFeed (M g) p' [] rest (acc ++ [.contentLength (-1), .complete]) := by
-  refine ⟨handleMessage g { p with contentLength := -1, respNo := nextNo g p, st := .headerOverLF, headerExists := false }, ?_, ?_⟩
+  refine ⟨handleMessage g { p with contentLength := -1, st := .headerOverLF, headerExists := false }, ?_, ?_⟩
   · exact idle_handleMessage g _ ⟨hq.proto, hq.statusCode, hq.status, hq.hKey, hq.hVal⟩ rfl
   · simp only [List.cons_append, List.nil_append]
-    rw [spec_step g p tok CR _ acc { p with contentLength := -1, respNo := nextNo g p, st := .headerOverLF } .next [.contentLength (-1)]
+    rw [spec_step g p tok CR _ acc { p with contentLength := -1, st := .headerOverLF } .next [.contentLength (-1)]
           (by simp [block, hp])
-          (by unfold NoHead at hh
-              cases hc : g.isClient <;> simp [hc] at hh <;>
-              simp [byteStep, hp, endOfHeaders, parseTE, parseCL, addTrailerKeys, framingOverride, headOverride, noBodyOverride, nextNo, hc, hh, hnb, hte, hcl, hch, ok, CR, SP, bind, Except.bind, pure, Except.pure])]
-    rw [spec_step g _ _ LF _ _ (handleMessage g { p with contentLength := -1, respNo := nextNo g p, st := .headerOverLF, headerExists := false })
+          (by simp [byteStep, hp, endOfHeaders, parseTE, parseCL, addTrailerKeys, noBodyOverride, hnb, hte, hcl, hch, ok, CR, SP, bind, Except.bind, pure, Except.pure])]
+    rw [spec_step g _ _ LF _ _ (handleMessage g { p with contentLength := -1, st := .headerOverLF, headerExists := false })
           .next [.complete] (by simp [block])
           (by simp [byteStep, hch, ok])]
     simp
@@ -68,17 +53,16 @@ theorem end_none (g : Cfg) (p : P) (tok rest : Bytes) (acc : List Ev)
 /-- blank line of a bodiless response (1xx / 204 / 304) without framing fields: complete, reported length 0 -/
 theorem end_bodiless (g : Cfg) (p : P) (tok rest : Bytes) (acc : List Ev)
     (hp : p.st = .headerKeyBefore) (hq : Quiet p) (hte : p.te = []) (hcl : p.cl = []) (hch : p.chunked = false)
-    (hnb : p.noBody = true) (hcli : g.isClient = true) :
+    (hnb : p.noBody = true) :
     ∃ p', Idle g p' ∧ specFeed (M g) p tok ([CR, LF] ++ rest) acc =
       specFeed (M g) p' [] rest (acc ++ [.contentLength 0, .complete]) := by
-  refine ⟨handleMessage g { p with contentLength := 0, chunked := false, respNo := p.respNo + 1, st := .headerOverLF, headerExists := false }, ?_, ?_⟩
+  refine ⟨handleMessage g { p with contentLength := 0, chunked := false, st := .headerOverLF, headerExists := false }, ?_, ?_⟩
   · exact idle_handleMessage g _ ⟨hq.proto, hq.statusCode, hq.status, hq.hKey, hq.hVal⟩ rfl
   · simp only [List.cons_append, List.nil_append]
-    rw [spec_step g p tok CR _ acc { p with contentLength := 0, chunked := false, respNo := p.respNo + 1, st := .headerOverLF } .next [.contentLength 0]
+    rw [spec_step g p tok CR _ acc { p with contentLength := 0, chunked := false, st := .headerOverLF } .next [.contentLength 0]
           (by simp [block, hp])
-          (by cases hd : g.head p.respNo <;>
-              simp [byteStep, hp, endOfHeaders, parseTE, parseCL, addTrailerKeys, framingOverride, headOverride, noBodyOverride, hcli, hd, hnb, hte, hcl, ok, CR, SP, bind, Except.bind, pure, Except.pure])]
-    rw [spec_step g _ _ LF _ _ (handleMessage g { p with contentLength := 0, chunked := false, respNo := p.respNo + 1, st := .headerOverLF, headerExists := false })
+          (by simp [byteStep, hp, endOfHeaders, parseTE, parseCL, addTrailerKeys, noBodyOverride, hnb, hte, hcl, ok, CR, SP, bind, Except.bind, pure, Except.pure])]
+    rw [spec_step g _ _ LF _ _ (handleMessage g { p with contentLength := 0, chunked := false, st := .headerOverLF, headerExists := false })
           .next [.complete] (by simp [block])
           (by simp [byteStep, ok])]
     simp
@@ -119,7 +103,7 @@ theorem endOfHeaders_length (p : P) (v : Bytes) (hte : p.te = []) (hcl : p.cl = 
 /-- blank line + body of a message framed by Content-Length -/
 theorem end_length (g : Cfg) (p : P) (tok rest : Bytes) (acc : List Ev) (v body : Bytes)
     (hp : p.st = .headerKeyBefore) (hq : Quiet p) (hte : p.te = []) (hcl : p.cl = [v]) (hch : p.chunked = false)
-    (hnb : p.noBody = false) (hh : NoHead g p) (hbh : p.bodyHeld = 0)
+    (hnb : p.noBody = false) (hbh : p.bodyHeld = 0)
     (hne : trimRightSpaces v ≠ []) (hdig : (trimRightSpaces v).all isNum = true) (hlt : decimal (trimRightSpaces v) < 2 ^ 62)
     (hlen : body.length = decimal (trimRightSpaces v))
     (hmax : g.maxBody = 0 ∨ body.length ≤ g.maxBody) :
@@ -131,27 +115,25 @@ theorem end_length (g : Cfg) (p : P) (tok rest : Bytes) (acc : List Ev) (v body 
   have hquiet : ∀ (q : P), q.proto = p.proto → q.statusCode = p.statusCode → q.status = p.status → q.hKey = p.hKey →
       q.hVal = p.hVal → Quiet q := fun q a b c d e => ⟨a ▸ hq.proto, b ▸ hq.statusCode, c ▸ hq.status, d ▸ hq.hKey, e ▸ hq.hVal⟩
   simp only [List.cons_append, List.nil_append, List.append_assoc]
-  rw [spec_step g p tok CR _ acc { p with contentLength := Int.ofNat body.length, respNo := nextNo g p, st := .headerOverLF } .next
+  rw [spec_step g p tok CR _ acc { p with contentLength := Int.ofNat body.length, st := .headerOverLF } .next
         [.contentLength body.length] (by simp [block, hp])
-        (by unfold NoHead at hh
-            cases hc : g.isClient <;> simp [hc] at hh <;>
-            simp [byteStep, hp, hE, addTrailerKeys, framingOverride, headOverride, noBodyOverride, nextNo, hc, hh, hnb, hch, ok, CR, SP, pure, Except.pure])]
+        (by simp [byteStep, hp, hE, addTrailerKeys, noBodyOverride, hnb, hch, ok, CR, SP, pure, Except.pure])]
   by_cases hb : body = []
   · subst hb
-    refine ⟨handleMessage g { p with contentLength := 0, respNo := nextNo g p, st := .headerOverLF, headerExists := false }, ?_, ?_⟩
+    refine ⟨handleMessage g { p with contentLength := 0, st := .headerOverLF, headerExists := false }, ?_, ?_⟩
     · exact idle_handleMessage g _ (hquiet _ rfl rfl rfl rfl rfl) rfl
-    · rw [spec_step g _ _ LF _ _ (handleMessage g { p with contentLength := 0, respNo := nextNo g p, st := .headerOverLF, headerExists := false })
+    · rw [spec_step g _ _ LF _ _ (handleMessage g { p with contentLength := 0, st := .headerOverLF, headerExists := false })
             .next [.complete] (by simp [block]) (by simp [byteStep, hch, ok])]
       simp
   · have hpos : 0 < body.length := List.length_pos_iff.mpr hb
-    refine ⟨handleMessage g { p with contentLength := Int.ofNat body.length, respNo := nextNo g p, st := .bodyContentLength,
+    refine ⟨handleMessage g { p with contentLength := Int.ofNat body.length, st := .bodyContentLength,
                                       headerExists := false, bodyHeld := body.length }, ?_, ?_⟩
     · exact idle_handleMessage g _ (hquiet _ rfl rfl rfl rfl rfl) rfl
-    · rw [spec_step g _ _ LF _ _ { p with contentLength := Int.ofNat body.length, respNo := nextNo g p, st := .bodyContentLength, headerExists := false }
+    · rw [spec_step g _ _ LF _ _ { p with contentLength := Int.ofNat body.length, st := .bodyContentLength, headerExists := false }
             .next [] (by simp [block])
-            (by simp [byteStep, hch, hnb, ok, hpos])]
+            (by simp [byteStep, hch, ok, hb])]
       simp only [nextTok_next, List.append_nil]
-      have hblk : (M g).block { p with contentLength := Int.ofNat body.length, respNo := nextNo g p, st := .bodyContentLength, headerExists := false }
+      have hblk : (M g).block { p with contentLength := Int.ofNat body.length, st := .bodyContentLength, headerExists := false }
           = some body.length := by
         simp [machine, block, hb]
       have := spec_block_full (M g) _ body.length hblk body [] rest
@@ -187,11 +169,10 @@ theorem parseCL_ok_of_valid (p : P) (h : clValuesOk p.cl = true) : ∃ q, parseC
 theorem framing_chunked (p : P) (v : Bytes) (hte : p.te = [v]) (hv : (trim v).map toLower = str "chunked")
     (hclv : clValuesOk p.cl = true)
     (hforb : (declaredKeys p.tr).any forbiddenTrailer = false) (htrailer : p.trailer = []) :
-    endOfHeaders p = .ok { p with te := [], cl := [], chunked := true, contentLength := -1 } ∧
-      ∀ r, addTrailerKeys { p with te := [], cl := [], chunked := true, contentLength := -1, respNo := r } =
-        .ok { p with te := [], cl := [], tr := [], chunked := true, contentLength := -1,
-                     trailer := (declaredKeys p.tr).eraseDups, respNo := r } := by
-  refine ⟨?_, ?_⟩
+    ∃ p1, endOfHeaders p = .ok p1 ∧ p1.contentLength = -1 ∧ p1.noBody = p.noBody ∧
+      addTrailerKeys p1 = .ok { p with te := [], cl := [], tr := [], chunked := true, contentLength := -1,
+                                       trailer := (declaredKeys p.tr).eraseDups } := by
+  refine ⟨{ p with te := [], cl := [], chunked := true, contentLength := -1 }, ?_, rfl, rfl, ?_⟩
   · obtain ⟨q, hq⟩ := parseCL_ok_of_valid p hclv
     have hte' : parseTE p = .ok { p with te := [], cl := [], chunked := true } := by
       unfold parseTE
@@ -202,8 +183,7 @@ theorem framing_chunked (p : P) (v : Bytes) (hte : p.te = [v]) (hv : (trim v).ma
       | cons a as => simp only [hq]; rfl
     simp only [endOfHeaders, hte', bind, Except.bind]
     simp [parseCL, pure, Except.pure]
-  · intro r
-    by_cases htr : p.tr = []
+  · by_cases htr : p.tr = []
     · simp [addTrailerKeys, htr, declaredKeys, htrailer, pure, Except.pure]
     · simp [addTrailerKeys, htr, hforb, pure, Except.pure]
 
@@ -211,27 +191,23 @@ theorem framing_chunked (p : P) (v : Bytes) (hte : p.te = [v]) (hv : (trim v).ma
 theorem end_chunked (g : Cfg) (p : P) (tok rest : Bytes) (acc : List Ev) (v : Bytes)
     (hp : p.st = .headerKeyBefore) (hte : p.te = [v]) (hv : (trim v).map toLower = str "chunked")
     (hclv : clValuesOk p.cl = true)
-    (hforb : (declaredKeys p.tr).any forbiddenTrailer = false) (htrailer : p.trailer = []) (hnb : p.noBody = false)
-    (hh : NoHead g p) :
+    (hforb : (declaredKeys p.tr).any forbiddenTrailer = false) (htrailer : p.trailer = []) (hnb : p.noBody = false) :
     specFeed (M g) p tok ([CR, LF] ++ rest) acc =
       specFeed (M g)
         { p with te := [], cl := [], tr := [], chunked := true, contentLength := -1,
-                 trailer := (declaredKeys p.tr).eraseDups, respNo := nextNo g p, st := .chunkSizeBefore, headerExists := false }
+                 trailer := (declaredKeys p.tr).eraseDups, st := .chunkSizeBefore, headerExists := false }
         [] rest (acc ++ [.contentLength (-1)]) := by
-  obtain ⟨h1, h3⟩ := framing_chunked p v hte hv hclv hforb htrailer
-  have hF : framingOverride g { p with te := [], cl := [], chunked := true, contentLength := -1 } =
-      { p with te := [], cl := [], chunked := true, contentLength := -1, respNo := nextNo g p } := by
-    unfold NoHead at hh
-    cases hc : g.isClient <;> simp [hc] at hh <;> simp [framingOverride, headOverride, noBodyOverride, nextNo, hc, hh, hnb]
+  obtain ⟨p1, h1, h2, h2n, h3⟩ := framing_chunked p v hte hv hclv hforb htrailer
+  have hnb1 : p1.noBody = false := by rw [h2n, hnb]
   simp only [List.cons_append, List.nil_append]
   rw [spec_step g p tok CR _ acc
         { p with te := [], cl := [], tr := [], chunked := true, contentLength := -1,
-                 trailer := (declaredKeys p.tr).eraseDups, respNo := nextNo g p, st := .headerOverLF } .next [.contentLength (-1)]
+                 trailer := (declaredKeys p.tr).eraseDups, st := .headerOverLF } .next [.contentLength (-1)]
         (by simp [block, hp])
-        (by rw [blank_cr g p _ _ tok hp h1 (by rw [hF]; exact h3 _), hF])]
+        (by simp [byteStep, hp, h1, h2, h3, noBodyOverride, hnb1, ok, CR, SP])]
   rw [spec_step g _ _ LF _ _
         { p with te := [], cl := [], tr := [], chunked := true, contentLength := -1,
-                 trailer := (declaredKeys p.tr).eraseDups, respNo := nextNo g p, st := .chunkSizeBefore, headerExists := false } .next []
+                 trailer := (declaredKeys p.tr).eraseDups, st := .chunkSizeBefore, headerExists := false } .next []
         (by simp [block]) (by simp [byteStep, ok])]
   simp
 
